@@ -3,6 +3,7 @@ package cose
 import (
 	"errors"
 	"fmt"
+	"math"
 	"math/big"
 	"strings"
 
@@ -726,6 +727,9 @@ func normalizeLabel(label any) (any, bool) {
 	case int64:
 		label = int64(v)
 	case uint:
+		if uint64(v) > math.MaxInt64 {
+			return nil, false
+		}
 		label = int64(v)
 	case uint8:
 		label = int64(v)
@@ -734,6 +738,9 @@ func normalizeLabel(label any) (any, bool) {
 	case uint32:
 		label = int64(v)
 	case uint64:
+		if v > math.MaxInt64 {
+			return nil, false
+		}
 		label = int64(v)
 	case string:
 		// no conversion
